@@ -112,7 +112,7 @@ class Gen:
         base_w = {
             "compile_str": 5.0, "compile_callable": 1.5, "compile_defs": 2.5, "compile_param": 1.2, "param_defs": 1.0,
             "to_logicfun": 0.8, "bind": 3.0, "oraclize": 2.0, "algo": 3.0, "secret_oracle": 0.4,
-            "export": 2.0, "decompile": 1.0, "truth_table": 1.5, "header": 0.3, "repr": 0.3, "again": 1.5, "forget": 0.8, "canary": 1.2, "variant": 0.8, "recompile": 0.6, "decode": 0.5, "custom": 0.35, "param_churn": 0.5, "bind_siblings": 0.6, "compose": 1.2,
+            "export": 2.0, "decompile": 1.0, "truth_table": 1.5, "header": 0.3, "repr": 0.3, "again": 1.5, "forget": 0.8, "canary": 1.2, "variant": 0.8, "recompile": 0.6, "decode": 0.5, "custom": 0.35, "param_churn": 0.5, "bind_siblings": 0.6, "compose": 1.2, "wrap_then_recompile": 1.5,
         }
         # swarm: every run disables / boosts a random subset of op kinds
         self.w = {k: v * r.choice([0, 0.5, 1, 1, 2, 3]) for k, v in sorted(base_w.items())}
@@ -645,6 +645,37 @@ class Gen:
             self.add("bind", {"target": e["id"], "values": vals, "order": order}, [e["id"]], s, "qf", dict(m), e["name"])
         return True
 
+    def b_wrap_then_recompile(self, s):
+        """wrap a function in an algorithm WITHOUT looking at the algorithm object, recompile the function with the other
+        uncompute setting (a legitimate in-place change of the caller's own object), and only then look at / export the
+        algorithm: it must be what it was when it was made (whatever the library builds lazily must not read the
+        function again later)"""
+        r = self.r
+        c = self.cands(self.one_arg(True))
+        if not c:
+            return False
+        wide = [e for e in c if e["meta"].get("in_bits", 1) >= 3]  # wide enough for the two uncompute settings to differ
+        e = self.pick(wide or c, s)
+        a = {"cls": r.choice(["Grover", "Grover", "DeutschJozsa", "BernsteinVazirani"]), "target": e["id"]}
+        if a["cls"] == "Grover" and e["meta"].get("in_bits", 4) > 5:
+            a["n_iterations"] = 1
+        gid = self.add("algo", a, [e["id"]], s, "algo", {"in_bits": e["meta"].get("in_bits", 4)}, None)
+        self.ops[-1]["late_look"] = True
+        self.add("recompile", {"target": e["id"], "uncompute": not self.byid_uncompute(e["id"])}, [e["id"]], s, "none")
+        if r.random() < 0.6:
+            self.add("export", {"target": gid, "fw": r.choice(self.fw), "mode": "circuit"}, [gid], s, "none")
+        return True
+
+    def byid_uncompute(self, oid):
+        """the uncompute setting an object was last compiled with (True when unknown)"""
+        cur = True
+        for o in self.ops:
+            if o["id"] == oid and "uncompute" in o["a"]:
+                cur = bool(o["a"]["uncompute"])
+            if o["kind"] == "recompile" and o["a"]["target"] == oid:
+                cur = bool(o["a"]["uncompute"])
+        return cur
+
     def b_recompile(self, s):
         """qf.compile(...) again: a legitimate in-place change of the caller's own object"""
         c = self.cands(lambda e: e["rk"] == "qf" and e["meta"].get("argsig") is not None)
@@ -758,6 +789,15 @@ class Gen:
             src = agains if (agains and rp.random() < 0.4) else (late if (late and rp.random() < 0.7) else resultful)
             if src:
                 pr.add(rp.choice(src))
+        # deferred observation (own stream): in a quarter of the histories, half of the results that REFERENCE other objects
+        # are not fingerprinted when they are made but when they are first used -- or at the end. A harness that looks at
+        # every new object at once would build whatever the library builds lazily, and hide what that depends on
+        rl = rng_for(self.seed, "latelook")
+        if rl.random() < 0.25:
+            cfg["late_look"] = True
+            for o in self.ops:
+                if o["kind"] in ("algo", "oraclize", "bind", "compile_str", "compile_callable") and "canary" not in o and rl.random() < 0.5:
+                    o["late_look"] = True
         return {"prop": PROP, "seed": self.seed, "tier": self.tier, "cfg": cfg, "ops": self.ops, "faults": faults, "pristine": sorted(pr)}
 
     def gen_faults(self):
@@ -1206,8 +1246,9 @@ class Estimator:
             del kl[0]
 
 
-def exec_one(op, objs, tracer, flist, tmpdir):
-    """one operation (under the line counter when tracer is given); returns (record, result, fingerprint)"""
+def exec_one(op, objs, tracer, flist, tmpdir, observe=True):
+    """one operation (under the line counter when tracer is given); returns (record, result, fingerprint);
+    observe=False: the result is not looked at (fingerprint None, taken later by the caller)"""
     from node import fire
 
     rec = {"i": op["id"], "kind": op["kind"]}
@@ -1240,6 +1281,8 @@ def exec_one(op, objs, tracer, flist, tmpdir):
             rec["fired"] = fired
     rec["outcome"] = outcome
     if outcome == "ok":
+        if not observe:
+            return rec, res, None
         fp = fp_result(op, res)
         rec["fp"] = digest(fp)
         return rec, res, fp
@@ -1306,8 +1349,25 @@ def run_history(cfg, ops, faults, prefix, tmpdir, est=None):
     def probe(name):
         probes[name] = probes.get(name, 0) + 1
 
+    unseen = {}  # op id -> its record: results that have not been looked at yet (deferred observation)
+
+    def first_look(j):
+        rec_j = unseen.pop(j)
+        try:
+            fp_j = fp_result(byid[j], objs[j])
+        except Exception as e:
+            fp_j = {"kind": "?", "unobservable": type(e).__name__}
+        fps[j] = fp_j
+        base[j] = fp_j
+        kinds[j] = fp_j.get("kind", "?") if isinstance(fp_j, dict) else "?"
+        rec_j["fp"] = digest(fp_j)
+        probe("result_first_looked_at_late")
+
     for idx, op in enumerate(ops):
         oid = op["id"]
+        for u in op["uses"]:
+            if u in unseen:
+                first_look(u)  # an operand is looked at before it is used (the op may legitimately change it)
         missing = [u for u in op["uses"] if u not in objs]
         if missing:
             rec = {"i": oid, "kind": op["kind"], "outcome": "skipped:int" if any(u in interrupted for u in missing) else "skipped"}
@@ -1326,13 +1386,17 @@ def run_history(cfg, ops, faults, prefix, tmpdir, est=None):
                     k = e
             flist.append([k, f["kind"]])
             placed.append({"op": oid, "kind": f["kind"], "frac": f["frac"], "k": k, "how": how})
-        rec, res, fp = exec_one(op, objs, tracer, flist, tmpdir)
+        defer = bool(op.get("late_look")) and op["kind"] in KEEP
+        rec, res, fp = exec_one(op, objs, tracer, flist, tmpdir, observe=not defer)
         outcome = rec["outcome"]
         if est is not None and outcome != "faulted:interrupt" and not any(f[0] == "interrupt" for f in flist):
             est.learn(op, rec.get("lines", 0))
         if outcome == "faulted:interrupt":
             interrupted.add(oid)
-        if outcome == "ok":
+        if outcome == "ok" and defer:
+            objs[oid] = res
+            unseen[oid] = rec
+        elif outcome == "ok":
             fps[oid] = fp
             if debug_ids is not None:
                 debug_ids.append(id(res) % 1000003)
@@ -1410,7 +1474,7 @@ def run_history(cfg, ops, faults, prefix, tmpdir, est=None):
 
         # ---- O2: nothing but the op's own fresh result may have changed
         for j, o in objs.items():
-            if j == oid:
+            if j == oid or j in unseen:
                 continue
             try:
                 cur = fp_result({"kind": "?"}, o)
@@ -1425,6 +1489,11 @@ def run_history(cfg, ops, faults, prefix, tmpdir, est=None):
                 break
         if violation:
             break
+    for j in sorted(unseen):
+        if j in objs:
+            first_look(j)
+        else:
+            unseen.pop(j)
 
     late_done = {}
     late_ops = 0
